@@ -17,8 +17,8 @@ import time
 import traceback
 
 VERIF = os.path.dirname(os.path.dirname(os.path.abspath(__file__)))
-EVIDENCE_DIR = os.path.join(VERIF, 'evidence')
-REPLAY_DIR = os.path.join(VERIF, 'replays')
+EVIDENCE_DIR = os.environ.get('HPLSIM_EVIDENCE_DIR') or os.path.join(VERIF, 'evidence')
+REPLAY_DIR = os.environ.get('HPLSIM_REPLAY_DIR') or os.path.join(VERIF, 'replays')
 KNOWN_FINDINGS = os.path.join(VERIF, 'known_findings.json')
 SRC = os.environ.get('HPLSIM_SRC', '/repo/src')
 DEFAULT_SEED = 20261001
@@ -199,6 +199,43 @@ def run_pool(fn, jobs, nproc=None, wall_cap=900):
 
 class HarnessError(Exception):
     pass
+
+
+def run_isolated(fn, *args):
+    """Run fn(*args) in a child forked from this process and return its (pickled) result.
+
+    Line-event streams inside lark/attrs depend, by a few events, on what the process has parsed
+    before (lazily built structures, dict resize histories). Forking every run off the same
+    prepared template process makes one seed one exactly repeatable execution, whatever the
+    worker ran earlier and however many workers there are.
+    """
+    import pickle
+    r, w = os.pipe()
+    pid = os.fork()
+    if pid == 0:
+        code = 1
+        try:
+            os.close(r)
+            try:
+                res = ('ok', fn(*args))
+            except BaseException:
+                res = ('err', traceback.format_exc())
+            data = pickle.dumps(res)
+            with os.fdopen(w, 'wb') as f:
+                f.write(data)
+            code = 0
+        finally:
+            os._exit(code)
+    os.close(w)
+    with os.fdopen(r, 'rb') as f:
+        data = f.read()
+    os.waitpid(pid, 0)
+    if not data:
+        raise HarnessError('isolated run died without a result')
+    st, res = pickle.loads(data)
+    if st != 'ok':
+        raise HarnessError(res)
+    return res
 
 
 def chunk(seq, n):
